@@ -10,7 +10,7 @@ KINDS = ["Value", "Reference", "Symbol", "Index", "Function"]
 
 
 def check(run, only=None):
-    e3.run_parts(run, ["dispatcher"], only=only, kinds=KINDS)
+    e3.run_parts(run, ["dispatcher", "paths"], only=only, kinds=KINDS)
     run.outside_claim += ["chains of several steps are the composition of single steps (one level of the evaluator per obligation; the base of an index "
                           "is an arbitrary value)", "BTreeMap::get / slice::get are contract models (exact key / position lookup), not executed",
                           "case-sensitivity is the exactness of string equality in BTreeMap<String,_>::get (model)"]
